@@ -50,6 +50,11 @@ type Prog struct {
 	edgeOut   map[*ssa.Function]func(*ssa.BasicBlock, int) FactSet
 	refined   map[*ssa.BasicBlock]FactSet
 	callersOf map[*ssa.Function][]ssa.CallInstruction
+
+	zoneInContext bool // a calling-context analysis is in progress (no nesting)
+
+	// Renamed records anchors that were resolved by role: "rel.recv.name" -> current name.
+	Renamed map[string]string
 }
 
 // Load loads /repo (or cfg.Dir) and builds SSA. Any load or type error is fatal.
@@ -211,6 +216,54 @@ func (p *Prog) ModuleFuncs() []*ssa.Function {
 // Func finds a package-level function or a method. recv is the receiver's named type ("" for
 // functions). Returns nil when absent.
 func (p *Prog) Func(rel, recv, name string) *ssa.Function {
+	if fn := p.funcByName(rel, recv, name); fn != nil {
+		return fn
+	}
+	return p.funcByRole(rel, recv, name)
+}
+
+// funcByRole: the named function does not exist. If the frozen table knows it, the unique function of the same package
+// and receiver with the same signature whose own name is not in the table (i.e. a new name) has taken its role.
+func (p *Prog) funcByRole(rel, recv, name string) *ssa.Function {
+	sp := p.Pkg(rel)
+	if sp == nil {
+		return nil
+	}
+	want, ok := FrozenFuncs[sp.Pkg.Path()+"|"+recv+"|"+name]
+	if !ok {
+		return nil
+	}
+	var cands []*ssa.Function
+	for _, fn := range p.ModuleFuncs() {
+		if fn.Pkg != sp || fn.Parent() != nil || fn.Synthetic != "" {
+			continue
+		}
+		k := FuncKey(fn)
+		if k == "" {
+			continue
+		}
+		if _, known := FrozenFuncs[k]; known {
+			continue
+		}
+		parts := strings.SplitN(k, "|", 3)
+		if parts[1] != recv {
+			continue
+		}
+		if SigString(fn.Signature) == want {
+			cands = append(cands, fn)
+		}
+	}
+	if len(cands) == 1 {
+		if p.Renamed == nil {
+			p.Renamed = map[string]string{}
+		}
+		p.Renamed[rel+"."+recv+"."+name] = cands[0].Name()
+		return cands[0]
+	}
+	return nil
+}
+
+func (p *Prog) funcByName(rel, recv, name string) *ssa.Function {
 	sp := p.Pkg(rel)
 	if sp == nil {
 		return nil
@@ -319,4 +372,47 @@ func (p *Prog) TPkgPath(path string) *types.Package {
 		return sp.Pkg
 	}
 	return nil
+}
+
+// FuncKey is the key of fn in the frozen anchor table: "import path|receiver type name|name" ("" for closures).
+func FuncKey(fn *ssa.Function) string {
+	if fn == nil || fn.Pkg == nil || fn.Parent() != nil {
+		return ""
+	}
+	recv := ""
+	if r := fn.Signature.Recv(); r != nil {
+		t := r.Type()
+		if pt, ok := t.(*types.Pointer); ok {
+			t = pt.Elem()
+		}
+		if n, ok := t.(*types.Named); ok {
+			recv = n.Obj().Name()
+		} else {
+			return ""
+		}
+	}
+	return fn.Pkg.Pkg.Path() + "|" + recv + "|" + fn.Name()
+}
+
+// SigString renders a signature without parameter names (a rename of parameters is not a change of role).
+func SigString(sig *types.Signature) string {
+	var b strings.Builder
+	b.WriteString("func(")
+	for i := 0; i < sig.Params().Len(); i++ {
+		if i > 0 {
+			b.WriteString(", ")
+		}
+		if sig.Variadic() && i == sig.Params().Len()-1 {
+			b.WriteString("...")
+		}
+		b.WriteString(types.TypeString(sig.Params().At(i).Type(), nil))
+	}
+	b.WriteString(")")
+	for i := 0; i < sig.Results().Len(); i++ {
+		b.WriteString(" " + types.TypeString(sig.Results().At(i).Type(), nil))
+	}
+	if r := sig.Recv(); r != nil {
+		b.WriteString(" recv " + types.TypeString(r.Type(), nil))
+	}
+	return b.String()
 }
